@@ -87,6 +87,9 @@ def check_tree(si, pi):
                 "newick": Tree.from_newick(tree.to_newick()),
                 "newick labels": Tree.from_newick(tree.to_newick(labels=labels), labels=labels),
                 "newick spaces": Tree.from_newick(tree.to_newick().replace(",", " , ").replace("(", "( ")),
+                # any white space is insignificant: line breaks and tabs of a wrapped / indented file, also inside numbers' surroundings
+                "newick line breaks": Tree.from_newick(tree.to_newick().replace(",", ",\n\t").replace(")", "\n)").replace(":", ":\n").replace(";", "\n;\n")),
+                "newick tabs + labels": Tree.from_newick(tree.to_newick(labels=labels).replace(",", "\t,\n").replace("(", "(\n\t"), labels=labels),
                 # labels are names, also when they look like numbers: digit strings whose value is not their position
                 "newick digit labels": Tree.from_newick(tree.to_newick(labels=[str(nleaves - 1 - k) for k in range(nleaves)]),
                                                         labels=[str(nleaves - 1 - k) for k in range(nleaves)]),
@@ -102,7 +105,7 @@ def check_tree(si, pi):
                 got = t.get_distance(a, b)
                 if abs(got - want) > 1e-5:
                     return f"{name}: distance({a},{b}) = {got}, path sum {want}"
-        if name in ("copy", "newick", "newick labels", "newick spaces", "newick digit labels", "newick year labels") and not (t == tree):
+        if name in ("copy", "newick", "newick labels", "newick spaces", "newick digit labels", "newick year labels", "newick line breaks", "newick tabs + labels") and not (t == tree):
             return f"{name}: tree not equal to the original"
     # topology without distances
     topo = Tree.from_newick(tree.to_newick(include_distance=False))
@@ -140,6 +143,15 @@ def check_upgma(n, vals):
             D[i, j] = D[j, i] = LENS[vals[k] % len(LENS)] * (1 + (k % 2))
             k += 1
     tree = upgma(D)
+    # the caller's matrix is input only: whatever its dtype, it is the same afterwards and gives the same tree again
+    for dt in (np.float32, np.float64):
+        Dc = D.astype(dt)
+        keep = Dc.copy()
+        t1 = upgma(Dc)
+        if not np.array_equal(Dc, keep):
+            return f"upgma() changed the {dt.__name__} distance matrix it was given"
+        if not (t1 == tree) or not (upgma(Dc) == tree):
+            return f"upgma() on the same matrix as {dt.__name__} gives a different tree"
     if sorted(l.index for l in tree.leaves) != list(range(n)):
         return f"leaves {sorted(l.index for l in tree.leaves)}"
     # ultrametric + merge heights = half the average linkage distance
@@ -198,6 +210,15 @@ def check_nj(si, pi, zero):
     tree = neighbor_joining(D)
     if tree is None:
         return "neighbor_joining returned None"
+    for dt in (np.float32, np.float64):
+        Dc = np.asarray(D).astype(dt)
+        keep = Dc.copy()
+        t1 = neighbor_joining(Dc)
+        if not np.array_equal(Dc, keep):
+            return f"neighbor_joining() changed the {dt.__name__} distance matrix it was given"
+        t2 = neighbor_joining(Dc)
+        if [[round(t1.get_distance(a_, b_), 4) for b_ in range(n)] for a_ in range(n)] != [[round(t2.get_distance(a_, b_), 4) for b_ in range(n)] for a_ in range(n)]:
+            return f"neighbor_joining() twice on the same {dt.__name__} matrix gives different trees"
     if sorted(l.index for l in tree.leaves) != list(range(n)):
         return f"leaves {sorted(l.index for l in tree.leaves)}"
     for a in range(n):
